@@ -230,45 +230,32 @@ pub fn make_module() -> KMap {
             (KValue::Map(m), [f]) if f.is_callable() => {
                 let m = m.clone();
                 let f = f.clone();
+
+                // The sort keys are produced before the map gets borrowed for sorting,
+                // the function might access the map while it's being called.
+                let entries: Vec<(ValueKey, KValue)> = m
+                    .data()
+                    .iter()
+                    .map(|(key, value)| (key.clone(), value.clone()))
+                    .collect();
+
+                let mut sort_keys = ValueMap::with_capacity(entries.len());
+                for (key, value) in entries {
+                    let sort_key = ctx
+                        .vm
+                        .call_function(f.clone(), &[key.value().clone(), value])?;
+                    sort_keys.insert(key, sort_key);
+                }
+
                 let mut error = None;
-
-                let get_sort_key = |vm: &mut KotoVm,
-                                    cache: &mut ValueMap,
-                                    key: &ValueKey,
-                                    value: &KValue|
-                 -> Result<KValue> {
-                    let value =
-                        vm.call_function(f.clone(), &[key.value().clone(), value.clone()])?;
-                    cache.insert(key.clone(), value.clone());
-                    Ok(value)
-                };
-
-                let mut cache = ValueMap::with_capacity(m.len());
-                m.data_mut().sort_by(|key_a, value_a, key_b, value_b| {
+                m.data_mut().sort_by(|key_a, _, key_b, _| {
                     if error.is_some() {
                         return Ordering::Equal;
                     }
 
-                    let value_a = match cache.get(key_a) {
-                        Some(value) => value.clone(),
-                        None => match get_sort_key(ctx.vm, &mut cache, key_a, value_a) {
-                            Ok(val) => val,
-                            Err(e) => {
-                                error.get_or_insert(Err(e));
-                                KValue::Null
-                            }
-                        },
-                    };
-                    let value_b = match cache.get(key_b) {
-                        Some(value) => value.clone(),
-                        None => match get_sort_key(ctx.vm, &mut cache, key_b, value_b) {
-                            Ok(val) => val,
-                            Err(e) => {
-                                error.get_or_insert(Err(e));
-                                KValue::Null
-                            }
-                        },
-                    };
+                    // An entry that was added by the function has no sort key
+                    let value_a = sort_keys.get(key_a).cloned().unwrap_or(KValue::Null);
+                    let value_b = sort_keys.get(key_b).cloned().unwrap_or(KValue::Null);
 
                     match compare_values(ctx.vm, &value_a, &value_b) {
                         Ok(ordering) => ordering,
